@@ -110,11 +110,9 @@ func VH_C07_syncinfo(n int, rule int, qcSel int, tcSel int) {
 	vassert(r.States.CommittedBlock().View() >= c0, "committed-view-never-decreases")
 	if view1 == cur+1 {
 		vcover("advanced")
-		if rule != 1 {
-			vassert(qcEvidence || tcEvidence, "view-advances-only-on-valid-certificate-for-this-or-later-view")
-		} else {
-			vassert(tcEvidence, "view-advances-only-on-valid-certificate-for-this-or-later-view")
-		}
+		// (with the aggregate rule a regular QC is currently ignored - finding C05-F1 - so only the
+		// TC can be the evidence there; the oracle accepts either, as the property states)
+		vassert(qcEvidence || tcEvidence, "view-advances-only-on-valid-certificate-for-this-or-later-view")
 		vassert(len(r.Views) == 1 && r.Views[0].View == view1, "view-change-signalled-exactly-once")
 	} else {
 		vassert(len(r.Views) == 0, "no-view-change-event-without-advance")
